@@ -46,12 +46,29 @@ def _verdict(a, b, compatible, kernel_name):
         return raised and same and n == 0
     if MODE == "shim":
         ok = (not raised) and n == 1 and first[0] == kernel_name
-        # the kernel receives self's arrays first and other's arrays as the argument
-        arrs = [x for x in first[1] if hasattr(x, "shape") and hasattr(x, "data")] if ok else []
-        mine = [v for v in vars(a).values() if hasattr(v, "data") and hasattr(v, "shape")]
-        theirs = [v for v in vars(b).values() if hasattr(v, "data") and hasattr(v, "shape")]
-        return ok and all(any(x is m for m in mine) or any(x is t for t in theirs) for x in arrs) and any(any(x is t for t in theirs) for x in arrs)
+        return ok and _args_ok(a, b, kernel_name, first[1])
     return not raised
+
+
+def _args_ok(a, b, kernel_name, args):
+    """the documented argument list of the merge kernel: self's arrays and parameters first, other's arrays after"""
+    if kernel_name == "_merge_linear":
+        want = [a.cms, b.cms, a.width, a.depth, a.uint_maxval, a.n_added_records, b.n_added_records]
+    elif kernel_name in ("_merge_log16", "_merge_log8"):
+        want = [a.cms, b.cms, a.width, a.depth, a.max_count, a.uint_maxval, a.num_reserved, a.base, a.n_added_records, b.n_added_records]
+    elif hasattr(a, "registers"):
+        want = [a.registers, b.registers, a.m]
+    else:
+        want = [a.lhh, a.lhh_count, a.key_lens, a.n_added_records, a.width, a.depth, a.uint_maxval, b.lhh, b.lhh_count, b.key_lens, b.n_added_records]
+    if len(args) != len(want):
+        return False
+    for x, w in zip(args, want):
+        if hasattr(w, "shape") and hasattr(w, "data"):
+            if x is not w:
+                return False
+        elif not (x == w):
+            return False
+    return True
 
 
 def check_linear(w1: int, d1: int, w2: int, d2: int) -> bool:
